@@ -5,7 +5,7 @@ import ast
 
 from .. import anchors as A
 from ..metainterp import HostInterp, Raised, Record
-from ..model import AnalysisError, call_name, dotted, short
+from ..model import src, AnalysisError, call_name, dotted, short
 
 
 def _setup(ctx, is_method, lookup_table):
@@ -69,8 +69,11 @@ def _setup(ctx, is_method, lookup_table):
             kwargs[p] = ["REC", "SELFNAME"]
         elif d and len(rparams) > 3 and d == rparams[3]:
             kwargs[p] = "CN"
+        elif isinstance(core(expr), ast.Constant):
+            kwargs[p] = core(expr).value
         else:
-            raise AnalysisError(f"{rc.loc(ctor[0])}: cannot tell what the rewriter is given as `{p}`")
+            # something else the re-compiler knows about the method (its name, its file): an opaque text
+            kwargs[p] = f"<{src(expr)}>"
     self_obj = Record()
     counter = {"n": 0}
 
